@@ -16,6 +16,7 @@
 #include <yaclib/async/shared_contract.hpp>
 #include <yaclib/async/shared_future.hpp>
 #include <yaclib/exe/executor.hpp>
+#include <yaclib/exe/manual.hpp>
 #include <yaclib/lazy/make.hpp>
 #include <yaclib/lazy/schedule.hpp>
 #include <yaclib/lazy/task.hpp>
@@ -229,10 +230,20 @@ struct JobE {
 struct World;
 static World* W = nullptr;
 
+class UserExec;
+// a job handed to the library's real ManualExecutor on behalf of a pipeline job (fixed pool, no heap)
+struct Proxy final : yaclib::Job {
+  yaclib::Job* real = nullptr;
+  UserExec* owner = nullptr;
+  int jid = 0;
+  void Call() noexcept final;
+};
+
 class UserExec final : public yaclib::IExecutor {
  public:
   int k = 0;
   bool queue = true;
+  bool manual = false;  // queue backed by the library's yaclib::ManualExecutor (Drain() runs every queued job)
   long limit = -1;
   long accepted = 0;
 
@@ -252,6 +263,9 @@ class UserExec final : public yaclib::IExecutor {
   yaclib::detail::List _tasks;
   int _jids[1024];
   int _head = 0, _tail = 0;
+  yaclib::ManualExecutor _manual;
+  Proxy _proxies[64];
+  int _next_proxy = 0;
 };
 
 struct World {
@@ -296,6 +310,15 @@ void UserExec::Submit(yaclib::Job& job) noexcept {
     return;
   }
   ++accepted;
+  if (manual) {
+    Proxy& p = _proxies[_next_proxy++ & 63];
+    p.next = nullptr;
+    p.real = &job;
+    p.owner = this;
+    p.jid = jid;
+    _manual.Submit(p);
+    return;
+  }
   if (queue) {
     _jids[_tail++ & 1023] = jid;
     _tasks.PushBack(job);
@@ -310,7 +333,22 @@ void UserExec::Submit(yaclib::Job& job) noexcept {
   W->ctx.pop_back();
 }
 
+void Proxy::Call() noexcept {
+  cnt::Off off;
+  W->jobs.push_back({jid, true});
+  W->ctx.push_back(owner->k);
+  {
+    cnt::On on;
+    real->Call();
+  }
+  W->ctx.pop_back();
+}
+
 bool UserExec::CallOne() noexcept {
+  if (manual) {
+    cnt::On on;
+    return _manual.Drain() != 0;
+  }
   if (_tasks.Empty()) {
     return false;
   }
@@ -953,12 +991,13 @@ struct Interp {
     const std::string& c = t[0];
     if (c == "cfg") {
       ExRef e;
-      if (t.size() < 3 || !ParseEx(t[1], e) || e.kind != 'u' || (t[2] != "queue" && t[2] != "inline")) {
+      if (t.size() < 3 || !ParseEx(t[1], e) || e.kind != 'u' || (t[2] != "queue" && t[2] != "inline" && t[2] != "manual")) {
         return "bad";
       }
       auto& x = W->execs[e.k];
       x.k = e.k;
-      x.queue = t[2] == "queue";
+      x.queue = t[2] != "inline";
+      x.manual = t[2] == "manual";
       if (t.size() == 4 && StartsWith(t[3], "limit=")) {
         ParseLong(t[3].substr(6), x.limit);
       }
